@@ -136,12 +136,38 @@ func fnSendRequest(r *http.Request, client *http.Client) (resp *http.Response, e
   requires r != nil
   ensures err == nil ==> resp != nil && fresh(resp) && resp.Body != nil && ifaceVal(resp.Body) != 0 && rdRem[ifaceVal(resp.Body)] >= 0
 
+// ---- C03: the request sent to the backend (prepareRequest) ----
+ghost var gFwdMethod string
+ghost var gFwdURL string
+ghost var gFwdBody int        // reader handed to http.NewRequestWithContext
+ghost var gFwdCtx int
+ghost var gClonedFrom int     // header map handed to cloneHeader
+ghost var gCloned int         // header map returned by cloneHeader
+ghost var gNewReqHost string  // Host that http.NewRequest derived from the URL
+
+pred fwdURL(svr *Server, q *httpprot.Request) := svr.URL ++ q.Request.URL.Path ++ (q.Request.URL.RawQuery != "" ? "?" ++ q.Request.URL.RawQuery : "")
+
 func (spCtx *serverPoolContext) prepareRequest(svr *Server, ctx stdcontext.Context, mirror bool) (err error)
-  trusted
   flag allocates
-  modifies spCtx.stdReq
+  requires spCtx != nil && svr != nil && spCtx.req != nil && spCtx.req.Request != nil && spCtx.req.Request.URL != nil && spCtx.req.Request.Header != nil
+  modifies spCtx.stdReq, gFwdMethod, gFwdURL, gFwdBody, gFwdCtx, gClonedFrom, gCloned, gNewReqHost, allof("map<string,[]string>#dom"), allof("map<string,[]string>#card"), allof("map<string,[]string>#val#arr"), allof("map<string,[]string>#val#len"), allof("map<string,[]string>#val#cap"), allof("elem<string>")
   ensures err == nil ==> spCtx.stdReq != nil && fresh(spCtx.stdReq) && reqCtx(ref(spCtx.stdReq)) == ifaceVal(ctx)
   ensures err != nil ==> spCtx.stdReq == old(spCtx.stdReq)
+  ensures same-method: err == nil ==> gFwdMethod == spCtx.req.Request.Method
+  ensures url-is-server-plus-path-plus-query: err == nil ==> gFwdURL == fwdURL(svr, spCtx.req)
+  ensures sent-with-the-attempts-context: err == nil ==> gFwdCtx == ifaceVal(ctx)
+  ensures headers-are-a-hop-by-hop-free-copy-of-the-clients: err == nil ==> gClonedFrom == ref(spCtx.req.Request.Header) && ref(spCtx.stdReq.Header) == gCloned && gCloned != ref(spCtx.req.Request.Header)
+  ensures host-kept-for-ip-servers-or-on-request: err == nil && (!svr.addrIsHostName || svr.KeepHost) ==> spCtx.stdReq.Host == spCtx.req.Request.Host
+  ensures host-of-the-server-otherwise: err == nil && svr.addrIsHostName && !svr.KeepHost ==> spCtx.stdReq.Host == gNewReqHost
+  ensures buffered-payload-is-the-body: err == nil && spCtx.req.stream == nil && len(spCtx.req.payload) > 0 ==> rdRem[gFwdBody] == len(spCtx.req.payload)
+  ensures streamed-payload-is-forwarded-as-is-but-never-mirrored: err == nil && spCtx.req.stream != nil ==> (mirror ? gFwdBody != ref(spCtx.req.stream) : gFwdBody == ref(spCtx.req.stream))
+  ghost at call[1] NewRequestWithContext: gFwdMethod := method
+  ghost at call[1] NewRequestWithContext: gFwdURL := url
+  ghost at call[1] NewRequestWithContext: gFwdBody := ifaceVal(body)
+  ghost at call[1] NewRequestWithContext: gFwdCtx := ifaceVal(ctx)
+  ghost at call[1] NewRequestWithContext: gNewReqHost := (r == nil ? "" : r.Host)
+  ghost at call[1] cloneHeader: gClonedFrom := ref(in)
+  ghost at call[1] cloneHeader: gCloned := ref(out)
 
 func (c *compression) compress(req *http.Request, resp *http.Response) (compressed bool)
   trusted
@@ -178,10 +204,10 @@ pred isSPE(err error, code int, result string) := typeIs(err, "serverPoolError")
 
 func (sp *ServerPool) doHandle(attemptCtx stdcontext.Context, spCtx *serverPoolContext) (err error)
   flag allocates
-  requires sp != nil && sp.spec != nil && sp.proxy != nil && sp.proxy.spec != nil && spCtx != nil && spCtx.Context != nil && spCtx.req != nil
+  requires sp != nil && sp.spec != nil && sp.proxy != nil && sp.proxy.spec != nil && spCtx != nil && spCtx.Context != nil && spCtx.req != nil && spCtx.req.Request != nil && spCtx.req.Request.URL != nil && spCtx.req.Request.Header != nil
   requires balancer-published: isLB(sp.loadBalancer.v)
   assume stdlib-context.DeadlineExceeded-is-a-non-nil-error: stdcontext.DeadlineExceeded != nil
-  modifies spCtx.stdReq, spCtx.stdResp, spCtx.resp, outResp, gLimit, gNoServer, gPrepFailed, gSendFailed, gCtxErr, gBuildFailed, gBackendStatus, rdRem, limUnder, limN, allof("net/http.Response.Body"), allof("net/http.Response.ContentLength"), allof("protocols/httpprot.Response.stream"), allof("protocols/httpprot.Response.payload"), allof("filters/proxy.roundRobinLoadBalancer.counter"), allof("ghostf:filters/proxy.roundRobinLoadBalancer.cnt"), allof("map<string,[]string>#dom"), allof("map<string,[]string>#card"), allof("map<string,[]string>#val#arr"), allof("map<string,[]string>#val#len"), allof("map<string,[]string>#val#cap"), allof("elem<string>")
+  modifies spCtx.stdReq, spCtx.stdResp, spCtx.resp, outResp, gFwdMethod, gFwdURL, gFwdBody, gFwdCtx, gClonedFrom, gCloned, gNewReqHost, gLimit, gNoServer, gPrepFailed, gSendFailed, gCtxErr, gBuildFailed, gBackendStatus, rdRem, limUnder, limN, allof("net/http.Response.Body"), allof("net/http.Response.ContentLength"), allof("protocols/httpprot.Response.stream"), allof("protocols/httpprot.Response.payload"), allof("filters/proxy.roundRobinLoadBalancer.counter"), allof("ghostf:filters/proxy.roundRobinLoadBalancer.cnt"), allof("map<string,[]string>#dom"), allof("map<string,[]string>#card"), allof("map<string,[]string>#val#arr"), allof("map<string,[]string>#val#len"), allof("map<string,[]string>#val#cap"), allof("elem<string>")
   ensures classified: err == nil || typeIs(err, "serverPoolError")
   ensures no-server-is-503-internalError: gNoServer ==> isSPE(err, 503, "internalError")
   ensures unbuildable-request-is-500-internalError: !gNoServer && gPrepFailed ==> isSPE(err, 500, "internalError")
@@ -261,7 +287,7 @@ func (sp *ServerPool) handle(ctx *context.Context, mirror bool) (result string)
     flag allocates
     flag frame=unchecked
     requires sp != nil && sp.spec != nil && sp.proxy != nil && sp.proxy.spec != nil && isLB(sp.loadBalancer.v)
-    requires ctx != nil && ctx.span != nil && spCtx != nil && spCtx.Context == ctx && spCtx.req != nil
+    requires ctx != nil && ctx.span != nil && spCtx != nil && spCtx.Context == ctx && spCtx.req != nil && spCtx.req.Request != nil && spCtx.req.Request.URL != nil && spCtx.req.Request.Header != nil
     assume stdlib-context.DeadlineExceeded-is-a-non-nil-error: stdcontext.DeadlineExceeded != nil
     ensures one-more-attempt: gAttempts == old(gAttempts) + 1 && gLastErr == err && gAttemptResp == ref(spCtx.resp)
     ensures attempt-runs-under-the-pool-timeout: sp.timeout > 0 ==> ctxTimeout(gDoCtx) == sp.timeout
@@ -289,7 +315,7 @@ func (sp *ServerPool) handle#handler(c stdcontext.Context) (err error)
   trusted
   flag locals
   flag allocates
-  modifies spCtx.stdReq, spCtx.stdResp, spCtx.resp, spCtx.span, outResp, gAttempts, gLastErr, gAttemptResp, gInCtx, gDoCtx, gLimit, gNoServer, gPrepFailed, gSendFailed, gCtxErr, gBuildFailed, gBackendStatus, rdRem, limUnder, limN, allof("net/http.Response.Body"), allof("net/http.Response.ContentLength"), allof("protocols/httpprot.Response.stream"), allof("protocols/httpprot.Response.payload"), allof("filters/proxy.roundRobinLoadBalancer.counter"), allof("ghostf:filters/proxy.roundRobinLoadBalancer.cnt"), allof("map<string,[]string>#dom"), allof("map<string,[]string>#card"), allof("map<string,[]string>#val#arr"), allof("map<string,[]string>#val#len"), allof("map<string,[]string>#val#cap"), allof("elem<string>")
+  modifies spCtx.stdReq, spCtx.stdResp, spCtx.resp, spCtx.span, outResp, gFwdMethod, gFwdURL, gFwdBody, gFwdCtx, gClonedFrom, gCloned, gNewReqHost, gAttempts, gLastErr, gAttemptResp, gInCtx, gDoCtx, gLimit, gNoServer, gPrepFailed, gSendFailed, gCtxErr, gBuildFailed, gBackendStatus, rdRem, limUnder, limN, allof("net/http.Response.Body"), allof("net/http.Response.ContentLength"), allof("protocols/httpprot.Response.stream"), allof("protocols/httpprot.Response.payload"), allof("filters/proxy.roundRobinLoadBalancer.counter"), allof("ghostf:filters/proxy.roundRobinLoadBalancer.cnt"), allof("map<string,[]string>#dom"), allof("map<string,[]string>#card"), allof("map<string,[]string>#val#arr"), allof("map<string,[]string>#val#len"), allof("map<string,[]string>#val#cap"), allof("elem<string>")
   ensures short-circuit-makes-no-attempt: err == resilience.ErrShortCircuited ==> gAttempts == old(gAttempts) && spCtx.resp == old(spCtx.resp) && outResp == old(outResp)
   ensures otherwise-the-outcome-of-the-last-attempt: err != resilience.ErrShortCircuited ==> gAttempts > old(gAttempts) && err == gLastErr && gAttemptResp == ref(spCtx.resp) && (spCtx.resp == nil || fresh(spCtx.resp)) && (noAnswer() ==> spCtx.resp == nil) && (spCtx.resp != nil ==> outResp == ref(spCtx.resp)) && (err == nil ==> spCtx.resp != nil) && (err == nil || typeIs(err, "serverPoolError")) && (err != nil && !noAnswer() ==> spCtx.resp != nil) && (spCtx.resp != nil ==> spCtx.resp.Response != nil)
 
